@@ -1,32 +1,44 @@
 (* C10 — ranges built from explicit version sets contain exactly what they should.
 
-   `normalize` / `from_versions` are the code-shaped models of VersionRange.normalize()
-   and VersionRange.from_versions().  Proved so far (for every version type with a total
-   preorder, every range and every list of known versions):
-     - the result depends on the range only through its membership answers on the known
-       versions (so two ranges that agree on them give the same result);
-     - no member gives the empty range;
-     - every emitted segment is one exact known version or one closed interval between two
-       known versions;
-     - from_versions contains exactly the versions equal to a listed one.
-   The remaining clauses of the property (the result validates, contains a known version
-   exactly when the original did, is independent of order and duplication of the list) are
-   stated below as C10_full_statement; they are not yet proved in Coq and are decided on the
-   implementation by the exhaustive small-scope check of harness/props/C10.py. *)
+   `normalize` / `from_versions` are the code-shaped models of VersionRange.normalize() and VersionRange.from_versions().
+   Proved for every version type with a total preorder, every well-formed range and every list of known versions
+   (any order, with duplicates):
+     - the result validates (it is the conversion of a flat expression whose alternatives are the maximal runs of
+       contiguous members of the sorted list: Native/NormalizeFull.v, through the theorems of C06);
+     - it contains a known version exactly when the original did, and never raises;
+     - it is empty when no known version is a member;
+     - every emitted segment is one exact known version or one closed interval between two known versions;
+     - it depends on the range only through its membership answers on the known versions;
+     - it does not depend on the order or the duplication of the list: two lists with the same elements give ranges
+       that contain the same versions (equal up to the spelling of equal versions);
+     - from_versions contains exactly the versions equal to a listed one. *)
 From Coq Require Import List Bool ZArith Permutation.
 From UV.Base Require Import Order Cop Res.
 From UV.Gen Require Import Tables.
 From UV.Vers Require Import Model Spec ContainsProofs SortProofs ValidateProofs NormalizeProofs.
+From UV.Native Require Import NormalizeFull.
 Import ListNotations.
 
-Definition C10_full_statement : Prop :=
+Theorem C10_result_validates :
   forall (V : Type) (cmp : V -> V -> comparison), TPO cmp ->
-  forall (cs : list (constr V)) (known known' : list V),
-    wf_sorted V cmp cs = true ->
-    exists ns, normalize V cmp cs known = Ok ns /\
-               validate V cmp ns = Ok true /\
-               (forall v, In v known -> contains V cmp ns v = contains V cmp cs v) /\
-               ((forall v, In v known <-> In v known') -> normalize V cmp cs known' = Ok ns).
+  forall (cs : list (constr V)), wf_sorted V cmp cs = true ->
+  forall (known : list V), exists ns, normalize V cmp cs known = Ok ns /\ validate V cmp ns = Ok true.
+Proof. exact normalize_validates. Qed.
+
+Theorem C10_contains_a_known_version_iff_the_original_did :
+  forall (V : Type) (cmp : V -> V -> comparison), TPO cmp ->
+  forall (cs : list (constr V)), wf_sorted V cmp cs = true ->
+  forall (known : list V) (v : V), In v known ->
+    exists ns, normalize V cmp cs known = Ok ns /\ contains V cmp ns v = contains V cmp cs v.
+Proof. exact normalize_membership. Qed.
+
+Theorem C10_independent_of_order_and_duplication :
+  forall (V : Type) (cmp : V -> V -> comparison), TPO cmp ->
+  forall (cs : list (constr V)), wf_sorted V cmp cs = true ->
+  forall (known known' : list V), (forall x, In x known <-> In x known') ->
+    exists ns ns', normalize V cmp cs known = Ok ns /\ normalize V cmp cs known' = Ok ns' /\
+                   forall v, contains V cmp ns v = contains V cmp ns' v.
+Proof. exact normalize_order_independent. Qed.
 
 Theorem C10_partial_depends_only_on_membership_of_known :
   forall (V : Type) (cmp : V -> V -> comparison) (cs cs' : list (constr V)) (known : list V),
@@ -58,6 +70,9 @@ Example C10_nonvacuous :
   from_versions Z Z.compare [3; 1; 3]%Z = Ok [C EQ 1; C EQ 3; C EQ 3]%Z.
 Proof. vm_compute. repeat split. Qed.
 
+Print Assumptions C10_result_validates.
+Print Assumptions C10_contains_a_known_version_iff_the_original_did.
+Print Assumptions C10_independent_of_order_and_duplication.
 Print Assumptions C10_partial_depends_only_on_membership_of_known.
 Print Assumptions C10_partial_no_member_gives_empty_range.
 Print Assumptions C10_partial_segment_is_exact_or_closed_interval_of_known_versions.
